@@ -75,6 +75,10 @@ void *malloc(size_t len)
     if (critical_context_level() > 0)
         abort();
 
+    /* Rounding the request up to the allocation granule must not wrap. */
+    if (len > (size_t)-1 - __WORDSIZE)
+        return 0;
+
     igris::syslock_guard lguard;
     __allocation_counter++;
     assert(__allocation_counter < 100);
